@@ -167,6 +167,9 @@ def hypsB (key : List Bytes) (db : DB) (t : Tape) (absent : List Bytes) : Bool :
     let tapeBytes := t.filterMap fun d => match d with | .bytes b => some b | _ => none
     let labels := db.map fun p => piBytes cfg lv K3 p.1
     decide (2 ≤ cfg.log2s) &&
+    -- C05 (`SSE1.shape`): no random filler label of the table repeats a label
+    nodupBy (drawsLen cfg.l.toNat t) && decide (db.length ≤ cfg.dictSize.toNat) &&
+    labels.all (fun l => match l with | .ok g => !(drawsLen cfg.l.toNat t).contains g | .error _ => false) &&
     tapeBytes.all (fun b => !(b.length == cfg.k.toNat && allZero b)) &&
     labels.all (fun l => match l with | .ok g => !tapeBytes.contains g | .error _ => false) &&
     nodupBy (labels.map fun l => match l with | .ok g => g | .error _ => []) &&
